@@ -83,6 +83,7 @@ def gen_parse(o, probe=False):
     sizes_needed = {9, 36}
     for key, ty, allowed in PARSE:
         sizes_needed |= {hi for _, hi in ranges(allowed)}
+    o.sizes = set(sizes_needed)
     for N in sorted(sizes_needed):
         o.parts.append(helpers(N))
     for key, ty, allowed in PARSE:
@@ -90,7 +91,9 @@ def gen_parse(o, probe=False):
         wide = "u8" not in ty
         tys = ty.replace("Std", "S")
         syntax = f"an optional '#' followed by exactly {allowed_txt(allowed)} hex digits (0-9a-fA-F; no sign, no blank)"
-        val_txt = "and the Ok value is the colour the digits denote" + (" (shorter forms widened with into_format)" if wide else "")
+        val_txt = ("and the Ok value is the colour the digits denote" + (" (shorter forms widened with into_format)" if wide else "")) if not isf else \
+            "(the value of accepted strings is the subject of the c12_parse_value_* obligations)"
+        value = "false" if isf else "true"
         # ---- family 1: every ASCII string, by length range ----------------------------------------------------------
         for lo, hi in ranges(allowed):
             N = hi
@@ -107,7 +110,7 @@ def gen_parse(o, probe=False):
                 let want = spec(buf[0], len, hex_{N}(&buf, 0, len), hex_{N}(&buf, 1, len), {allowed_arr(allowed)});
                 kani::cover!(true);
                 kani::cover!(want.is_some());
-                check_parse::<{ty}, {N}>(&buf, len, want, true);
+                check_parse::<{ty}, {N}>(&buf, len, want, {value});
                 """,
                 parse_fns(ty, allowed, N),
                 f"all 128^n ASCII byte strings of every length n in {lo}..={hi} (symbolic length, symbolic bytes)",
@@ -139,7 +142,7 @@ def gen_parse(o, probe=False):
                 {push}
                 kani::cover!(len >= 4 && buf[1] >= 0x80);
                 let want = spec(buf[0], len, hex_{NB}(&buf, 0, len), hex_{NB}(&buf, 1, len), {allowed_arr(allowed)});
-                check_parse::<{ty}, {NB}>(&buf, len, want, true);
+                check_parse::<{ty}, {NB}>(&buf, len, want, {value});
                 """,
                 parse_fns(ty, allowed, cap or NB),
                 f"all strings of k <= {K} Unicode scalar values (every `char` at every position)"
@@ -149,11 +152,415 @@ def gen_parse(o, probe=False):
         if wide:
             unicode(f"c12_parse_unicode_{key}_le{K}_b9", 9, 9, False)
         unicode(f"c12_parse_unicode_{key}_le{K}", 4 * K, None, wide)
+        # ---- family 3 (float targets): value of every well-formed string, one harness per form ---------------------
+        if isf:
+            for n in allowed:
+                N = n + 1
+                if N not in o.sizes:
+                    o.sizes.add(N)
+                    o.parts.append(helpers(N))
+                per = n // ncomp(allowed)
+                src = {1: "u8", 2: "u8", 4: "u16", 8: "u32"}[per]
+                o.harness(
+                    f"c12_parse_value_{key}_{n}",
+                    f"value of {tys} parsed from EVERY well-formed string with {n} hex digits (with or without '#', any letter case): Ok, and equal to the "
+                    f"{src} colour the digits denote ({'each digit doubled, ' if per == 1 else ''}r, g, b{', a' if ncomp(allowed) == 4 else ''} order) widened with into_format",
+                    f"""
+                    let buf: [u8; {N}] = kani::any();
+                    let len: usize = kani::any();
+                    kani::assume(len == {n} || len == {N});
+                    kani::assume(ascii_{N}(&buf));
+                    let want = spec(buf[0], len, hex_{N}(&buf, 0, len), hex_{N}(&buf, 1, len), {allowed_arr(allowed)});
+                    kani::assume(want.is_some());
+                    kani::cover!(true);
+                    kani::cover!(len == {N});
+                    check_parse::<{ty}, {N}>(&buf, len, want, true);
+                    """,
+                    parse_fns(ty, [n], N) + [f"palette::rgb::Rgb::into_format ({src} -> {'f32' if 'f32' in ty else 'f64'})"],
+                    f"all 22^{n} digit strings x optional '#'",
+                    unwind=per + 1)
+
+
+# ------------------------------------------------------------------------------------------------------------------
+# (b) format -> parse round trip
+FMT = [
+    # key, type, component type, ncomp
+    ("rgb_u8", "Rgb<Std, u8>", "u8", 3), ("rgba_u8", "Rgba<Std, u8>", "u8", 4),
+    ("rgb_u16", "Rgb<Std, u16>", "u16", 3), ("rgba_u16", "Rgba<Std, u16>", "u16", 4),
+    ("rgb_u32", "Rgb<Std, u32>", "u32", 3), ("rgba_u32", "Rgba<Std, u32>", "u32", 4),
+]
+
+
+def gen_format(o):
+    for key, ty, ct, nc in FMT:
+        per = {"u8": 2, "u16": 4, "u32": 8}[ct]
+        n = per * nc
+        names = ["red", "green", "blue", "alpha"][:nc]
+        for spec_, upper in (("x", "false"), ("X", "true")):
+            decl = "\n".join(f"let {c}: {ct} = kani::any();" for c in names)
+            exp = "\n".join(
+                f"assert!(w.b[{1 + ci * per + d}] == hexdigit(({c} as u32) >> {4 * (per - 1 - d)}, {upper}), \"digit {ci * per + d}\");"
+                for ci, c in enumerate(names) for d in range(per))
+            tys = ty.replace("Std", "S")
+            o.harness(
+                f"c12_format_{key}_{'upper' if upper == 'true' else 'lower'}",
+                f"`{{:{spec_}}}` of EVERY {tys} writes exactly {n} {'upper' if upper == 'true' else 'lower'}-case hex digits, each component zero-padded to {per} digits in "
+                f"{', '.join(names)} order, and parsing that string returns the same colour (also with a leading '#'). Formatting goes through the real "
+                f"core::fmt machinery into a fixed stack buffer (harness `fmt::Write` sink instead of String).",
+                f"""
+                {decl}
+                let c = <{ty}>::new({', '.join(names)});
+                kani::cover!(true);
+                let mut w = Sink::<{n + 1}>::new();
+                w.b[0] = b'#';
+                w.len = 1;
+                let r = core::fmt::Write::write_fmt(&mut w, format_args!("{{:{spec_}}}", c));
+                assert!(r.is_ok(), "formatting failed");
+                assert!(w.len == {n + 1}, "number of digits written");
+                {exp}
+                // SAFETY: the assertions above established that every byte is an ASCII hex digit
+                let s = unsafe {{ core::str::from_utf8_unchecked(&w.b[1..{n + 1}]) }};
+                let back = s.parse::<{ty}>();
+                assert!(back.is_ok(), "formatted colour rejected by parse");
+                if let Ok(b) = back {{
+                    assert!(b == c, "round trip changed the colour");
+                }}
+                let s = unsafe {{ core::str::from_utf8_unchecked(&w.b[0..{n + 1}]) }};
+                let back = s.parse::<{ty}>();
+                assert!(back.is_ok(), "'#' + formatted colour rejected by parse");
+                if let Ok(b) = back {{
+                    assert!(b == c, "round trip with '#' changed the colour");
+                }}
+                """,
+                [f"impl fmt::{'UpperHex' if upper == 'true' else 'LowerHex'} for palette::rgb::Rgb<S, T>"]
+                + ([f"impl fmt::{'UpperHex' if upper == 'true' else 'LowerHex'} for palette::Alpha<C, T>"] if nc == 4 else [])
+                + [f"impl FromStr for palette::rgb::{tys}", f"palette::rgb::hex::{HEXFNS[n]}"],
+                f"all 2^{8 * nc * per // 2} colours",
+                unwind=per + 3, thorough=True)
+
+
+# ------------------------------------------------------------------------------------------------------------------
+# (c) packed integers
+ORDERS = {  # order -> component names from the most significant byte down
+    "Abgr": ["alpha", "blue", "green", "red"],
+    "Argb": ["alpha", "red", "green", "blue"],
+    "Bgra": ["blue", "green", "red", "alpha"],
+    "Rgba": ["red", "green", "blue", "alpha"],
+}
+LORDERS = {"La": ["luma", "alpha"], "Al": ["alpha", "luma"]}
+
+
+def gen_pack(o):
+    for Oname, comps in ORDERS.items():
+        O = "RgbaOrder" if Oname == "Rgba" else Oname
+        shift = {c: 8 * (3 - i) for i, c in enumerate(comps)}
+        word = " | ".join(f"(({c} as u32) << {shift[c]})" for c in comps)
+        word_ff = " | ".join(f"(({c} as u32) << {shift[c]})" if c != "alpha" else f"(0xFFu32 << {shift[c]})" for c in comps)
+        layout = "0x" + "".join({"alpha": "AA", "red": "RR", "green": "GG", "blue": "BB"}[c] for c in comps)
+        o.harness(
+            f"c12_pack_{Oname.lower()}_u32",
+            f"channel order {Oname}: for EVERY packed u32 `p` and EVERY Rgba<u8> `c`: unpack puts byte k of `p` into the documented channel ({layout}), "
+            f"pack builds exactly that word, unpack(pack(c)) == c and pack(unpack(p)) == p; same through Rgba::from_u32/into_u32, "
+            f"Rgb::from_u32 (alpha ignored) / Rgb::into_u32 (alpha = 0xFF) and the From/Into impls of Packed",
+            f"""
+            let p: u32 = kani::any();
+            let red: u8 = kani::any();
+            let green: u8 = kani::any();
+            let blue: u8 = kani::any();
+            let alpha: u8 = kani::any();
+            kani::cover!(true);
+            let c = Rgba::<Std, u8>::new(red, green, blue, alpha);
+            // unpack: documented byte positions
+            let u: Rgba<Std, u8> = Packed::<{O}, u32> {{ color: p, channel_order: PhantomData }}.unpack();
+            assert!(u.red == (p >> {shift['red']}) as u8 && u.green == (p >> {shift['green']}) as u8);
+            assert!(u.blue == (p >> {shift['blue']}) as u8 && u.alpha == (p >> {shift['alpha']}) as u8);
+            // pack: documented word
+            let w = {word};
+            assert!(Packed::<{O}, u32>::pack(c).color == w);
+            // round trips
+            assert!(Packed::<{O}, u32>::pack(u).color == p);
+            let back: Rgba<Std, u8> = Packed::<{O}, u32>::pack(c).unpack();
+            assert!(back == c);
+            // Rgba / Rgb integer helpers
+            assert!(Rgba::<Std, u8>::from_u32::<{O}>(p) == u && c.into_u32::<{O}>() == w);
+            assert!(Rgb::<Std, u8>::from_u32::<{O}>(p) == u.color);
+            assert!(c.color.into_u32::<{O}>() == ({word_ff}));
+            // From / Into
+            let pk: Packed<{O}, u32> = c.into();
+            assert!(pk.color == w);
+            let pk: Packed<{O}, u32> = c.color.into();
+            assert!(pk.color == ({word_ff}));
+            let pk: Packed<{O}, u32> = Packed::from(p);
+            assert!(pk.color == p);
+            assert!(Rgba::<Std, u8>::from(pk) == u && Rgb::<Std, u8>::from(pk) == u.color);
+            """,
+            [f"impl ComponentOrder<Rgba<S, T>, [T; 4]> for palette::rgb::channels::{Oname}", "impl ComponentOrder<C, u32> for T (cast/packed.rs)",
+             "palette::cast::Packed::{pack,unpack}", "palette::rgb::Rgba::{from_u32,into_u32}", "palette::rgb::Rgb::{from_u32,into_u32}",
+             "impl From<Rgb/Rgba> for Packed, impl From<Packed> for Rgb/Rgba"],
+            "all 2^32 packed values and all 2^32 Rgba<u8> colours")
+        arr = ", ".join(comps)
+        o.harness(
+            f"c12_pack_{Oname.lower()}_array",
+            f"channel order {Oname} on the array form, generic component: Packed<{O}, [T; 4]>::pack writes [{arr}], unpack reads the same slots, "
+            f"both round trips are the identity (T = u8 and T = u16)",
+            f"""
+            let q: [u8; 4] = kani::any();
+            let red: u8 = kani::any();
+            let green: u8 = kani::any();
+            let blue: u8 = kani::any();
+            let alpha: u8 = kani::any();
+            kani::cover!(true);
+            let c = Rgba::<Std, u8>::new(red, green, blue, alpha);
+            let a = Packed::<{O}, [u8; 4]>::pack(c).color;
+            assert!(a[0] == {comps[0]} && a[1] == {comps[1]} && a[2] == {comps[2]} && a[3] == {comps[3]});
+            let u: Rgba<Std, u8> = Packed::<{O}, [u8; 4]> {{ color: q, channel_order: PhantomData }}.unpack();
+            assert!(u.{comps[0]} == q[0] && u.{comps[1]} == q[1] && u.{comps[2]} == q[2] && u.{comps[3]} == q[3]);
+            let b = Packed::<{O}, [u8; 4]>::pack(u).color;
+            assert!(b[0] == q[0] && b[1] == q[1] && b[2] == q[2] && b[3] == q[3]);
+            let q: [u16; 4] = kani::any();
+            let u: Rgba<Std, u16> = Packed::<{O}, [u16; 4]> {{ color: q, channel_order: PhantomData }}.unpack();
+            assert!(u.{comps[0]} == q[0] && u.{comps[1]} == q[1] && u.{comps[2]} == q[2] && u.{comps[3]} == q[3]);
+            let b = Packed::<{O}, [u16; 4]>::pack(u).color;
+            assert!(b[0] == q[0] && b[1] == q[1] && b[2] == q[2] && b[3] == q[3]);
+            """,
+            [f"impl ComponentOrder<Rgba<S, T>, [T; 4]> for palette::rgb::channels::{Oname}", "palette::cast::Packed::{pack,unpack}"],
+            "all [u8; 4] / [u16; 4] arrays and all Rgba<u8> colours")
+    o.harness(
+        "c12_pack_from_u32_default_orders",
+        "the From impls between u32 and Rgb<u8> / Rgba<u8> use the documented default orders: Rgb <-> 0xAARRGGBB (alpha ignored on the way in, "
+        "0xFF on the way out), Rgba <-> 0xRRGGBBAA, for EVERY u32 and EVERY colour",
+        """
+        let p: u32 = kani::any();
+        let red: u8 = kani::any();
+        let green: u8 = kani::any();
+        let blue: u8 = kani::any();
+        let alpha: u8 = kani::any();
+        kani::cover!(true);
+        let c = Rgb::<Std, u8>::from(p);
+        assert!(c.red == (p >> 16) as u8 && c.green == (p >> 8) as u8 && c.blue == p as u8);
+        let c = Rgba::<Std, u8>::from(p);
+        assert!(c.red == (p >> 24) as u8 && c.green == (p >> 16) as u8 && c.blue == (p >> 8) as u8 && c.alpha == p as u8);
+        assert!(u32::from(c) == p);
+        let rgb = Rgb::<Std, u8>::new(red, green, blue);
+        assert!(u32::from(rgb) == 0xFF00_0000 | ((red as u32) << 16) | ((green as u32) << 8) | blue as u32);
+        assert!(Rgb::<Std, u8>::from(u32::from(rgb)) == rgb);
+        let rgba = Rgba::<Std, u8>::new(red, green, blue, alpha);
+        assert!(u32::from(rgba) == ((red as u32) << 24) | ((green as u32) << 16) | ((blue as u32) << 8) | alpha as u32);
+        assert!(Rgba::<Std, u8>::from(u32::from(rgba)) == rgba);
+        """,
+        ["impl From<u32> for Rgb<S, u8>", "impl From<u32> for Rgba<S, u8>", "impl From<Rgb<S, u8>> for u32", "impl From<Rgba<S, u8>> for u32"],
+        "all 2^32 integers and all 2^32 colours")
+    for O, comps in LORDERS.items():
+        shift = {c: 8 * (1 - i) for i, c in enumerate(comps)}
+        word = " | ".join(f"(({c} as u16) << {shift[c]})" for c in comps)
+        word_ff = " | ".join(f"(({c} as u16) << {shift[c]})" if c != "alpha" else f"(0xFFu16 << {shift[c]})" for c in comps)
+        layout = "0x" + "".join({"alpha": "AA", "luma": "LL"}[c] for c in comps)
+        o.harness(
+            f"c12_pack_luma_{O.lower()}_u16",
+            f"luma channel order {O}: for EVERY packed u16 and EVERY Lumaa<u8>: unpack/pack use the documented layout {layout}, both round trips are the "
+            f"identity; same through Lumaa::from_u16/into_u16, Luma::from_u16 (alpha ignored) / into_u16 (alpha = 0xFF), the [u8; 2] form and the "
+            f"From/Into impls of Packed",
+            f"""
+            let p: u16 = kani::any();
+            let luma: u8 = kani::any();
+            let alpha: u8 = kani::any();
+            kani::cover!(true);
+            let c = Lumaa::<Std, u8>::new(luma, alpha);
+            let u: Lumaa<Std, u8> = Packed::<{O}, u16> {{ color: p, channel_order: PhantomData }}.unpack();
+            assert!(u.luma == (p >> {shift['luma']}) as u8 && u.alpha == (p >> {shift['alpha']}) as u8);
+            let w = {word};
+            assert!(Packed::<{O}, u16>::pack(c).color == w);
+            assert!(Packed::<{O}, u16>::pack(u).color == p);
+            let back: Lumaa<Std, u8> = Packed::<{O}, u16>::pack(c).unpack();
+            assert!(back == c);
+            assert!(Lumaa::<Std, u8>::from_u16::<{O}>(p) == u && c.into_u16::<{O}>() == w);
+            assert!(Luma::<Std, u8>::from_u16::<{O}>(p) == u.color);
+            assert!(c.color.into_u16::<{O}>() == ({word_ff}));
+            let a = Packed::<{O}, [u8; 2]>::pack(c).color;
+            assert!(a[0] == {comps[0]} && a[1] == {comps[1]});
+            let q: [u8; 2] = kani::any();
+            let v: Lumaa<Std, u8> = Packed::<{O}, [u8; 2]> {{ color: q, channel_order: PhantomData }}.unpack();
+            assert!(v.{comps[0]} == q[0] && v.{comps[1]} == q[1]);
+            let pk: Packed<{O}, u16> = c.into();
+            assert!(pk.color == w);
+            let pk: Packed<{O}, u16> = c.color.into();
+            assert!(pk.color == ({word_ff}));
+            let pk: Packed<{O}, u16> = Packed::from(p);
+            assert!(Lumaa::<Std, u8>::from(pk) == u && Luma::<Std, u8>::from(pk) == u.color);
+            """,
+            [f"impl ComponentOrder<Lumaa<S, T>, [T; 2]> for palette::luma::channels::{O}", "impl ComponentOrder<C, u16> for T (cast/packed.rs)",
+             "palette::cast::Packed::{pack,unpack}", "palette::luma::Lumaa::{from_u16,into_u16}", "palette::luma::Luma::{from_u16,into_u16}"],
+            "all 2^16 packed values and all 2^16 Lumaa<u8> colours")
+    o.harness(
+        "c12_pack_luma_from_u16_default_orders",
+        "the From impls between u16 and Luma<u8> / Lumaa<u8> use the documented default orders: Luma <-> 0xAALL (alpha ignored in, 0xFF out), "
+        "Lumaa <-> 0xLLAA, for EVERY u16 and EVERY colour",
+        """
+        let p: u16 = kani::any();
+        let luma: u8 = kani::any();
+        let alpha: u8 = kani::any();
+        kani::cover!(true);
+        let c = Luma::<Std, u8>::from(p);
+        assert!(c.luma == p as u8);
+        let c = Lumaa::<Std, u8>::from(p);
+        assert!(c.luma == (p >> 8) as u8 && c.alpha == p as u8);
+        assert!(u16::from(c) == p);
+        let l = Luma::<Std, u8>::new(luma);
+        assert!(u16::from(l) == 0xFF00 | luma as u16);
+        assert!(Luma::<Std, u8>::from(u16::from(l)) == l);
+        let la = Lumaa::<Std, u8>::new(luma, alpha);
+        assert!(u16::from(la) == ((luma as u16) << 8) | alpha as u16);
+        assert!(Lumaa::<Std, u8>::from(u16::from(la)) == la);
+        """,
+        ["impl From<u16> for Luma<S, u8>", "impl From<u16> for Lumaa<S, u8>", "impl From<Luma<S, u8>> for u16", "impl From<Lumaa<S, u8>> for u16"],
+        "all 2^16 integers and all 2^16 colours")
+
+
+# ------------------------------------------------------------------------------------------------------------------
+# (d) named colours; the independent list is /repo/codegen/res/svg_colors.txt, read here (generation = check time)
+def read_names():
+    out = []
+    for line in open(os.path.join(REPO, "codegen/res/svg_colors.txt")):
+        line = line.rstrip("\n")
+        if not line.strip():
+            continue
+        name, rgb = line.split("\t")
+        r, g, b = (int(x) for x in rgb.split(","))
+        out.append((name, r, g, b))
+    return out
+
+
+def near_misses(name, allnames):
+    cand = [name.upper(), name.capitalize(), name[:-1], name + " "]
+    seen, out = set(), []
+    for c in cand:
+        if c and c not in allnames and c not in seen:
+            seen.add(c)
+            out.append(c)
+    return out
+
+
+def gen_named(o):
+    names = read_names()
+    allnames = {n for n, *_ in names}
+    longest = max(len(n) for n in allnames)
+    NB = 24
+    assert longest <= NB
+    if NB not in o.sizes:
+        o.sizes.add(NB)
+        o.parts.insert(1, helpers(NB))
+
+    # harness-side specification of from_str: the list as a loop-free chain over (length, three little-endian words)
+    def k3(n):
+        bs = n.encode() + b"\0" * (NB - len(n))
+        return [int.from_bytes(bs[8 * i:8 * i + 8], "little") for i in range(3)]
+    arms = "\n".join(
+        f"    if (len == {len(n)}) & (w[0] == 0x{k3(n)[0]:x}) & (w[1] == 0x{k3(n)[1]:x}) & (w[2] == 0x{k3(n)[2]:x}) {{ return Some([{r}, {g}, {b}]); }}"
+        for n, r, g, b in names)
+    o.parts.append(f"""
+// codegen/res/svg_colors.txt ({len(names)} lines) as a function of (length, the bytes as three little-endian words, zero padded)
+fn svg_lookup(len: usize, w: [u64; 3]) -> Option<[u8; 3]> {{
+{arms}
+    None
+}}
+
+// the first `len` bytes of the buffer as three little-endian words, zero padded (loop-free)
+fn words_24(buf: &[u8; 24], len: usize) -> [u64; 3] {{
+    [{", ".join(" | ".join(f"(((if {i} < len {{ buf[{i}] }} else {{ 0 }}) as u64) << {8 * (i % 8)})" for i in range(8 * wi, 8 * wi + 8)) for wi in range(3))}]
+}}
+""")
+    consts = "\n".join(f'assert!(named::{n.upper()} == Srgb::<u8>::new({r}, {g}, {b}), "{n.upper()}");' for n, r, g, b in names)
+    o.harness(
+        "c12_named_constants",
+        f"every line `name r, g, b` of codegen/res/svg_colors.txt ({len(names)} lines) has an upper-case constant palette::named::NAME with exactly that value",
+        "kani::cover!(true);\n" + consts,
+        ["palette::named::<CONSTANT> (named/codegen.rs)"], f"the {len(names)} lines of svg_colors.txt (read when the harness is generated)")
+    check = """
+            let w = words_24(&buf, len);
+            let want = svg_lookup(len, w);
+            // SAFETY: valid UTF-8 by construction (ASCII bytes / char::encode_utf8 output)
+            let s = unsafe { core::str::from_utf8_unchecked(&buf[..len]) };
+            let got = named::from_str(s);
+            kani::cover!(got.is_some());
+            match (got, want) {
+                (Some(c), Some(v)) => assert!(c.red == v[0] && c.green == v[1] && c.blue == v[2], "listed name found with another value"),
+                (Some(_), None) => assert!(false, "found a name that is not in svg_colors.txt"),
+                (None, Some(_)) => assert!(false, "listed name not found"),
+                (None, None) => {}
+            }
+    """
+    o.harness(
+        f"c12_named_from_str_ascii_le{longest}",
+        f"named::from_str agrees with codegen/res/svg_colors.txt on EVERY ASCII string of at most {longest} bytes (the longest name): Some(listed value) for the "
+        f"{len(names)} lower-case names, None for everything else - case variants, prefixes, extensions, blanks, the empty string. The real phf lookup "
+        f"(SipHash-1-3, displacement tables, key comparison) runs on symbolic input.",
+        f"""
+            let buf: [u8; {NB}] = kani::any();
+            let len: usize = kani::any();
+            kani::assume(len <= {longest});
+            kani::assume(ascii_{NB}(&buf));
+            kani::cover!(true);
+        """ + check,
+        ["palette::named::from_str", "palette::named::COLORS (phf map, named/codegen.rs)", "phf::Map::get / phf_shared::hash (SipHash-1-3)"],
+        f"all 128^n ASCII strings of every length n <= {longest}", unwind=NB + 2)
+    K = 6
+    decl = "\n".join(f"let c{i}: char = kani::any();" for i in range(K))
+    push = "\n".join(f"if {i} < k {{ push_char(&mut buf, &mut len, c{i}); }}" for i in range(K))
+    o.harness(
+        f"c12_named_from_str_unicode_le{K}",
+        f"named::from_str agrees with codegen/res/svg_colors.txt on EVERY string of at most {K} Unicode scalar values (symbolic chars encoded with "
+        f"char::encode_utf8; up to {4 * K} bytes): in particular no string containing a multi-byte character is found, and the lookup does not panic",
+        f"""
+            {decl}
+            let k: usize = kani::any();
+            kani::assume(k <= {K});
+            kani::cover!(true);
+            let mut buf = [0u8; {NB}];
+            let mut len = 0usize;
+            {push}
+            kani::cover!(len >= 4 && buf[1] >= 0x80);
+        """ + check,
+        ["palette::named::from_str", "palette::named::COLORS (phf map, named/codegen.rs)", "phf::Map::get / phf_shared::hash (SipHash-1-3)"],
+        f"all strings of k <= {K} Unicode scalar values (every `char` at every position)", unwind=NB + 2)
+    o.harness(
+        "c12_named_entries_count",
+        f"the generated map has exactly {len(names)} entries (entries(), names() and colors() all yield {len(names)} items). With "
+        f"c12_named_from_str_ascii_le{longest} (each of the {len(names)} distinct listed names is found, i.e. occupies an entry) this leaves no entry for any "
+        f"other key, so no string of any length other than a listed name can be found (phf::Map::get only returns an entry whose stored key equals the argument)",
+        f"""
+        kani::cover!(true);
+        assert!(named::entries().count() == {len(names)});
+        assert!(named::names().count() == {len(names)});
+        assert!(named::colors().count() == {len(names)});
+        """,
+        ["palette::named::entries", "palette::named::names", "palette::named::colors", "palette::named::COLORS"],
+        f"the {len(names)} entries of the generated map", unwind=len(names) + 2)
+    G = 8
+    groups = [names[i:i + G] for i in range(0, len(names), G)]
+    for gi, grp in enumerate(groups):
+        body = ["kani::cover!(true);"]
+        for n, r, g, b in grp:
+            body.append(f'assert!(named::from_str("{n}") == Some(Srgb::<u8>::new({r}, {g}, {b})), "{n}");')
+            for m in near_misses(n, allnames):
+                body.append(f'assert!(named::from_str("{m}").is_none(), "near miss of {n}");')
+        o.harness(
+            f"c12_named_lookup_{gi:02d}_{grp[0][0]}_{grp[-1][0]}",
+            f"named colours {grp[0][0]} .. {grp[-1][0]} of codegen/res/svg_colors.txt ({len(grp)} of {len(names)} lines) as concrete configurations: "
+            f"named::from_str(lower-case name) is Some(the listed RGB value); the UPPER-CASE and Capitalised variants, the name without its last character and "
+            f"the name followed by a blank are not found (unless such a string is itself listed)",
+            "\n".join(body),
+            ["palette::named::from_str", "palette::named::COLORS (phf map, named/codegen.rs)"],
+            f"{len(grp)} names x (1 lookup + up to 4 near misses), concrete strings", unwind=longest + 4, thorough=True)
 
 
 def gen():
-    o = Out("c12_gen.rs", "use palette::rgb::{Rgb, Rgba};\nuse crate::c12_support::*;\n")
+    o = Out("c12_gen.rs", "use core::marker::PhantomData;\nuse palette::cast::Packed;\nuse palette::luma::channels::{Al, La};\nuse palette::luma::{Luma, Lumaa};\n"
+            "use palette::named;\nuse palette::rgb::channels::{Abgr, Argb, Bgra, Rgba as RgbaOrder};\nuse palette::rgb::{Rgb, Rgba};\nuse palette::Srgb;\n"
+            "use crate::c12_support::*;\n")
     gen_parse(o)
+    gen_format(o)
+    gen_pack(o)
+    gen_named(o)
     o.write()
 
 
